@@ -2,7 +2,8 @@
 
 For every observed program B and every history h over an alphabet of 'previous programs' (solved, solved twice, solved
 with a heuristic / on the MOSEK path, abandoned unsolved, failed, raised half-way, evaluated module-level null objects and
-accumulated long sums on them with +=, a model fragment built with the public constructors before any PEP() exists)
+accumulated long sums on them with +=, a model fragment built with the public constructors before any PEP() exists, models whose solve raises
+half-way through the translation, models solved loudly)
 up to a length bound, `h ; B` is executed in ONE process (a fork of a pristine interpreter that has imported the library
 and run nothing) and the canonical dump of B - the exact solver input (cvxpy: the stuffed problem data handed to
 CLARABEL, byte for byte; MOSEK path: the stand-in's call log with exact floats), the names of the constraints sent and the
@@ -96,6 +97,30 @@ def prev_program(name):
             tot += 0.5 * c.exprs["d0"]
             acc += c.points["x0"]
         c.pep.add_constraint(tot + acc ** 2 <= 100)
+    elif name == "badkey":
+        # models of every small size whose solve raises half-way through the translation of a constraint (a valid inner
+        # product followed by a key that is not made of leaf points)
+        from PEPit import PEP, Point, Expression
+        for n_ in range(2, 10):
+            p = PEP()
+            pts = [Point() for _ in range(n_)]
+            bad = Expression(is_leaf=False, decomposition_dict={(pts[0], pts[1]): 1.0, (pts[0], pts[0] + pts[1]): 1.0})
+            p.add_constraint(bad <= 1)
+            p.add_constraint(pts[0] ** 2 <= 1)
+            p.set_performance_metric(pts[0] ** 2)
+            for be in ("cvxpy", "mosek"):
+                try:
+                    solving.solve(p, backend=be)
+                except Exception:
+                    pass
+    elif name == "loud":
+        # earlier programs solved at the default and at the highest verbosity
+        c = models.build(_spec("gd"))
+        solving.solve(c.pep, verbose=1)
+        c = models.build(_spec("block"))
+        solving.solve(c.pep, verbose=2)
+        c = models.build(_spec("quad"))
+        solving.solve(c.pep, verbose=1, dr="trace")
     elif name == "fragment":
         # an abandoned model fragment built with the public constructors BEFORE any PEP() exists in the process
         from PEPit import Point, Expression
@@ -112,7 +137,7 @@ def prev_program(name):
 
 
 HISTORY_ALPHABET = ["gd", "block", "quad", "linop", "comp", "lmi", "qg", "abandon", "unbounded", "raises", "twice", "heur",
-                    "mosek", "nulls", "opts", "fragment"]
+                    "mosek", "nulls", "opts", "fragment", "badkey", "loud"]
 OBSERVED = ["gd", "block", "quad", "lmi", "comp", "nullsum", "lmi@mosek", "block@mosek", "qg", "support", "gd+logdet2", "lmi+trace",
             "block+logdet1@mosek"]
 
@@ -157,6 +182,19 @@ def observed_program(name, verbose):
             hd.update(type(e).__name__.encode())
     dump["duals_sha256"] = hd.hexdigest()
     dump["duals_read"] = nd
+    # the primal instance the user reads afterwards (bit-exact as well)
+    from PEPit.point import Point as _P
+    from PEPit.expression import Expression as _E
+    hi = hashlib.sha256()
+    ni = 0
+    for o in list(_P.list_of_leaf_points) + list(_E.list_of_leaf_expressions):
+        try:
+            hi.update(np.ascontiguousarray(np.asarray(o.eval(), dtype=float)).tobytes())
+            ni += 1
+        except Exception as e:
+            hi.update(type(e).__name__.encode())
+    dump["instance_sha256"] = hi.hexdigest()
+    dump["instance_read"] = ni
     dump["n_sent"] = len(calls)
     if backend == "cvxpy" and getattr(w, "prob", None) is not None:
         import cvxpy as cp
@@ -270,7 +308,7 @@ def _judge_once(history, prog, verbose, ref, pad):
         return [("history-dependent:raises:%s" % prog, "B raised %s after history %s" % (got["harness_exception"], list(history)))], got
     d = diff(ref, got)
     if d:
-        what = "multipliers" if d == ["duals_sha256"] else "solver-input" if any(k in d for k in ("solver_input_sha256", "mosek_log_sha256", "solver_input_shapes", "mosek_calls", "n_sent")) \
+        what = "multipliers" if d == ["duals_sha256"] else "instance" if set(d) <= {"instance_sha256", "instance_read"} else "solver-input" if any(k in d for k in ("solver_input_sha256", "mosek_log_sha256", "solver_input_shapes", "mosek_calls", "n_sent")) \
             else "names" if "names" in d else "result"
         return [("history-dependent:%s:%s" % (what, prog),
                  "after history %s (verbose=%d) program %s differs from its run in a fresh interpreter in %s: %s vs %s"
